@@ -47,7 +47,7 @@ def response_shapes_assumed() -> Dict[str, List[str]]:
             "scan": ["success|live_hosts", "success|<addresses>", "success|"]}
 
 
-def _data(kind: str, act: str, dkind: str) -> Dict[str, Any]:
+def _data(kind: str, act: str, dkind: str, case: Optional[dict] = None) -> Dict[str, Any]:
     if dkind == "reason":
         return {"reason": "synthetic"}
     if dkind == "empty":
@@ -59,7 +59,7 @@ def _data(kind: str, act: str, dkind: str) -> Dict[str, Any]:
     if act in SCANS:
         shape = "list" if (act == "node-nmap-ping-scan" or dkind == "list") else "dict"
         return rig._data1({"shape": shape, "hostsEmpty": dkind == "no-hosts", "containsTarget": dkind not in ("no-hosts", "no-target"),
-                           "hasPg": dkind not in ("no-hosts", "no-target", "no-pg")})
+                           "hasPg": dkind not in ("no-hosts", "no-target", "no-pg")}, rig.target_of(case or {}))
     return {}
 
 
@@ -79,6 +79,8 @@ def drive(kind: str, case: dict, inject: Dict[int, Tuple[str, str, str]], max_st
     with rig.patched_rng() as pr:
         d = pr.fresh(v)
         d.sched, d.k = [case.get("d0", 0)], case.get("startIdx", 0)
+        d.kmap = [(cfg["agent_settings"].get("starting_nodes") or [], case.get("startIdx", 0)),
+                  (cfg["agent_settings"].get("target_ips") or [], case.get("targetIdx", 0))]
         try:
             agent = rig._agent_from(cfg)
         except Exception as e:
@@ -113,7 +115,7 @@ def drive(kind: str, case: dict, inject: Dict[int, Tuple[str, str, str]], max_st
                 status, data = "success", {}
             else:
                 label, status, dkind = inject.get(k, OUTCOMES[0])
-                data = _data(kind, act, dkind)
+                data = _data(kind, act, dkind, case)
                 k += 1
             try:
                 agent.process_action_response(timestep=t, action=act, parameters=par, request=req,
@@ -241,10 +243,33 @@ def sweep(kind: str, rng: Rng, thorough: bool, n_quick_cfg: int, n_pairs_quick: 
 
 
 # ------------------------------------------------------------------------------------------------ family (a)
+def in_domain(case: dict) -> bool:
+    """C19's generator of `well-formed` cases is well-formed for C19 (its model raises where the code raises).  C01's obligation is
+    about configurations a scenario could sensibly carry: a TAP003 whose network knowledge COVERS what it is told to attack, for the
+    start node that was drawn - every account-change host other than the start node and every ACL router has credentials with an
+    `ip_address`, the start node has credentials, and no ACL router is the start node itself.  (Otherwise TAP003 raises
+    KeyError('ip_address') in _manipulation / _exploit: an incomplete scenario file, reported as an observation in the design note,
+    not as a violation.)"""
+    if case.get("agent") != "tap3":
+        return True
+    sn = case.get("startNodes") or []
+    start = int(sn[case.get("startIdx", 0)][4:]) if sn else 0
+    creds = {h: bool(ip) for h, ip in case["creds"]}
+    if start not in creds:
+        return False
+    for h in case["accts"]:
+        if h != start and not creds.get(h, False):
+            return False
+    for r in case["acls"]:
+        if r == start or not creds.get(r, False):
+            return False
+    return True
+
+
 def c19_family(kind: str, rng: Rng, n: int) -> dict:
     """C19's well-formed generator + C19's `run_impl`; `game_call` is wrapped so that the exception behind a `raised` line is kept."""
     raises: List[dict] = []
-    cases = steps = 0
+    cases = steps = skipped = 0
     caught: List[dict] = []
     orig = rig.game_call
 
@@ -264,6 +289,9 @@ def c19_family(kind: str, rng: Rng, n: int) -> dict:
     try:
         for k in range(n):
             case = rig.gen_case(rng, kind, malformed=False)
+            if not in_domain(case):
+                skipped += 1
+                continue
             del caught[:]
             try:
                 impl, _, problems = rig.run_impl(case)
@@ -281,7 +309,7 @@ def c19_family(kind: str, rng: Rng, n: int) -> dict:
                     raises.append({"agent": kind, "case": case, "phase": "format_request", "exc": "Unformattable", "msg": pb[:200], "where": "format_request"})
     finally:
         rig.game_call = orig
-    return {"cases": cases, "steps": steps, "raises": raises}
+    return {"cases": cases, "steps": steps, "raises": raises, "skipped": skipped}
 
 
 AGENT_TYPE = {"tap1": "tap-001", "tap3": "tap-003", "periodic": "periodic-agent", "dm": "red-database-corrupting-agent",
